@@ -3,7 +3,8 @@ import PV.C20.Types
   C20 — executable model of the `str.format` template splitter and the field-name splitter in
   `/repo/format/src/format.rs`:
 
-    FormatString::parse_literal_single / parse_literal / parse_spec / parse_part_in_brackets,
+    FormatString::parse_literal_single / parse_literal / parse_spec (the one-pass version of
+    commit eebce66; `parse_part_in_brackets` no longer exists),
     `impl FromTemplate for FormatString` (from_str), FieldName::parse, FieldNamePart::parse_part,
     and the contract of `str::parse::<usize>()` they rely on.
 
@@ -52,72 +53,73 @@ def parseLiteralLoop : Nat → List Nat → List Nat → Except FormatParseError
 def parseLiteral (text : List Nat) : Except FormatParseError (List Nat × List Nat) :=
   parseLiteralLoop text.length [] text
 
-/-! ## field scanner -/
+/-! ## field scanner (one pass, as repaired in /repo commit eebce66) -/
 
-/-- The `for (idx, c) in text.char_indices()` loop of `parse_spec` for `idx > 0`;
-    result: `left` and the text after the closing brace. -/
-def parseSpecLoop : Bool → List Nat → List Nat → Except FormatParseError (List Nat × List Nat)
-  | _, _, [] => .error unmatchedBracket                        -- `end_bracket_pos` stays `None`
-  | nested, left, c :: rest =>
-    if c = 123 then
-      if nested then .error invalidFormatSpecifier
-      else parseSpecLoop true (left ++ [c]) rest
-    else if c = 125 then
-      if nested then parseSpecLoop false (left ++ [c]) rest
-      else .ok (left, rest)
-    else parseSpecLoop nested (left ++ [c]) rest
-
-/-- `selected.push(char)`: `selected` is `right` once `split` is set. -/
-def pibPush (split : Bool) (left right : List Nat) (c : Nat) : List Nat × List Nat :=
-  if split then (left, right ++ [c]) else (left ++ [c], right)
-
-/-- The scanning loop of `parse_part_in_brackets`.  `inner = true` while control is in the inner
-    `while let Some(next_char) = chars.next()` that follows a `[`. -/
-def pibLoop : Bool → Bool → List Nat → List Nat → List Nat → Except FormatParseError (List Nat × List Nat)
-  | _, _, left, right, [] => .ok (left, right)
-  | split, true, left, right, c :: rest =>
-    let lr := pibPush split left right c
-    if c = 93 then pibLoop split false lr.1 lr.2 rest
-    else if rest.isEmpty then .error missingRightBracket          -- `chars.peek().is_none()`
-    else pibLoop split true lr.1 lr.2 rest
-  | split, false, left, right, c :: rest =>
-    if c = 91 then
-      let lr := pibPush split left right c
-      pibLoop split true lr.1 lr.2 rest
-    else if c = 58 ∧ split = false then pibLoop true false left right rest
+/-- The `loop` of `parse_spec` that reads the field name: result is the name (the slice
+    `name_text[..name_len]`, i.e. every character consumed before the terminator), the terminator
+    (`}`, `:` or `!`) and the text after it.  `inIndex` is the Rust variable `in_index`. -/
+def nameLoop : Bool → List Nat → Except FormatParseError (List Nat × Nat × List Nat)
+  | inIndex, [] => .error (if inIndex then missingRightBracket else unmatchedBracket)
+  | true, c :: rest =>
+    match nameLoop (c != 93) rest with                          -- `in_index = c != ']'`
+    | .ok (name, term, r) => .ok (c :: name, term, r)
+    | .error e => .error e
+  | false, c :: rest =>
+    if c = 123 then .error invalidFormatSpecifier
+    else if c = 91 then
+      match nameLoop true rest with
+      | .ok (name, term, r) => .ok (c :: name, term, r)
+      | .error e => .error e
+    else if c = 125 ∨ c = 58 ∨ c = 33 then .ok ([], c, rest)
     else
-      let lr := pibPush split left right c
-      pibLoop split false lr.1 lr.2 rest
+      match nameLoop false rest with
+      | .ok (name, term, r) => .ok (c :: name, term, r)
+      | .error e => .error e
 
-/-- `arg_part.splitn(2, '!')`: text before the first `!` and, if there is one, the text after. -/
-def splitBang : List Nat → List Nat × Option (List Nat)
-  | [] => ([], none)
-  | c :: rest =>
-    if c = 33 then ([], some rest)
-    else let r := splitBang rest; (c :: r.1, r.2)
+/-- The `for (idx, c) in spec_text.char_indices()` loop: result is `spec_text[..idx]` and
+    `spec_text[idx + 1..]`. -/
+def specLoop : Nat → List Nat → Except FormatParseError (List Nat × List Nat)
+  | _, [] => .error unmatchedBracket
+  | depth, c :: rest =>
+    if c = 123 then
+      match specLoop (depth + 1) rest with
+      | .ok (s, r) => .ok (c :: s, r)
+      | .error e => .error e
+    else if c = 125 then
+      if depth = 0 then .ok ([], rest)
+      else match specLoop (depth - 1) rest with
+        | .ok (s, r) => .ok (c :: s, r)
+        | .error e => .error e
+    else
+      match specLoop depth rest with
+      | .ok (s, r) => .ok (c :: s, r)
+      | .error e => .error e
 
-/-- `parse_part_in_brackets(text)`. -/
-def parsePartInBrackets (text : List Nat) : Except FormatParseError Field :=
-  match pibLoop false false [] [] text with
-  | .error e => .error e
-  | .ok (left, right) =>
-    -- `format_spec = if split { right } else { String::new() }`: `right` is empty unless split
-    match splitBang left with
-    | (argPart, none) => .ok { name := argPart, conv := none, spec := right }
-    | (argPart, some [c]) => .ok { name := argPart, conv := some c, spec := right }   -- `exactly_one`
-    | (_, some _) => .error unknownConversion
+/-- the tail of `parse_spec` once name, conversion and the final terminator (`}` or `:`) are known -/
+def finishField (name : List Nat) (conv : Option Nat) (terminator : Nat) (rest : List Nat) :
+    Except FormatParseError (Field × List Nat) :=
+  if terminator = 125 then .ok ({ name := name, conv := conv, spec := [] }, rest)
+  else match specLoop 0 rest with
+    | .ok (s, r) => .ok ({ name := name, conv := conv, spec := s }, r)
+    | .error e => .error e
 
 /-- `parse_spec(text)`. -/
 def parseSpec : List Nat → Except FormatParseError (Field × List Nat)
-  | [] => .error unmatchedBracket
+  | [] => .error missingStartBracket
   | c :: rest =>
     if c ≠ 123 then .error missingStartBracket
-    else match parseSpecLoop false [] rest with
+    else match nameLoop false rest with
       | .error e => .error e
-      | .ok (left, right) =>
-        match parsePartInBrackets left with
-        | .error e => .error e
-        | .ok f => .ok (f, right)
+      | .ok (name, terminator, r) =>
+        if terminator = 33 then
+          -- `conversion_spec = Some(chars.next().ok_or(UnknownConversion)?)`, then `}` or `:`
+          match r with
+          | [] => .error unknownConversion
+          | [_] => .error unknownConversion
+          | conv :: t :: r' =>
+            if t = 125 ∨ t = 58 then finishField name (some conv) t r'
+            else .error unknownConversion
+        else finishField name none terminator r
 
 /-! ## driver -/
 
